@@ -58,8 +58,8 @@ PROPS["C11"] = dict(
     units=[
         dict(name="map-exhaustive", pkg="p_map", hooks=["iterable"], run="^TestC11MapExhaustive$", shards=(8, 16), timeout=(200, 1500)),
         dict(name="map-rapid", pkg="p_map", hooks=["iterable"], run="^TestC11MapRapid$", checks=(20000, 200000), shards=(2, 16), timeout=(200, 1500)),
-        dict(name="lru-rapid", pkg="p_lru", hooks=["iterable", "lru"], run="^TestC11LruRapid$", checks=(20000, 100000), shards=(2, 16), timeout=(200, 900)),
-        dict(name="lru-long", pkg="p_lru", hooks=["iterable", "lru"], run="^TestC11LruLong$", checks=(60, 400), shards=(4, 16), timeout=(200, 900)),
+        dict(name="lru-rapid", pkg="p_lru", hooks=["iterable", "lru"], run="^TestC11LruRapid$", checks=(20000, 100000), shards=(2, 16), timeout=(200, 900), env={"GOMAXPROCS": "1"}),
+        dict(name="lru-long", pkg="p_lru", hooks=["iterable", "lru"], run="^TestC11LruLong$", checks=(60, 400), shards=(4, 16), timeout=(200, 900), env={"GOMAXPROCS": "1"}),
         dict(name="lru-conc", pkg="p_lru", hooks=["iterable", "lru"], run="^TestC11LruConc$", checks=(200, 1200), shards=(4, 8), timeout=(200, 900), shrinktime="10s"),
         dict(name="map-reach", pkg="p_map", hooks=[], run="^TestC11ReachMap$", checks=(150, 700), shards=(4, 8), timeout=(200, 900), env={"GOMAXPROCS": "2"}, shrinktime="8s"),
         dict(name="lru-reach", pkg="p_map", hooks=[], run="^TestC11ReachLru$", checks=(150, 700), shards=(4, 8), timeout=(200, 900), env={"GOMAXPROCS": "2"}, shrinktime="8s"),
